@@ -214,8 +214,9 @@ JudgeLabwareOp(tr, T, ev) ==
        \A i \in 1..Len(pips) : /\ pips[i].lc = kv.lc /\ pips[i].tip = kv.tip /\ pips[i].rackid = kv.rackid
                                /\ pips[i].racktype = kv.racktype /\ pips[i].tube = kv.tube /\ pips[i].frt = kv.frt
                                /\ pips[i].tiptype = ""),
+    \* (as for transfer: the label comment may already have been written, no pipetting record may)
     Cl("C09.kwreject", viaWl /\ ~KwValid(a.kw) /\ (\E i \in 1..Len(P.vs) : P.vs[i] > 0) /\ T.dev # "base",
-       ev.out # "ok" /\ ev.recs = <<>>),
+       ev.out # "ok" /\ PipRecs(ev.recs) = <<>>),
     \* C10 through aspirate / dispense: a tip collection is ONE selection, every record of the call carries its OR;
     \* an invalid tip argument is rejected
     Cl("C10.recmask", viaWl /\ F.records /\ ev.out = "ok" /\ TipArgValid(a.kw.tip),
